@@ -54,8 +54,8 @@ theorem C18_names_unique (fr : Frame) (ops : List RegOp) (h : finish fr = .ok op
 it on every generated set and the harness answers `linked=1` for every set that links): a message
 / enum kind field comes with its descriptor and the descriptor is in the set, enums have at least
 one value, the listed file-level names exist, full names are unique across kinds (no message or
-oneof has the full name of an enum, no message that of a oneof), and field numbers are distinct
-within a message. -/
+oneof has the full name of an enum, no message that of a oneof), field numbers are distinct
+within a message, and schema names (`splitDescriptorName`) contain no dot. -/
 
 /-- **Never panics.** For every linked descriptor set `SchemaSetFromFiles` returns a schema set
 or an error — for any number of messages, any self / mutual recursion, any annotation
@@ -314,9 +314,9 @@ theorem C18_newroot_ok (ds : DescSet) (hl : linked ds = true) (reg : Reg)
     cases root with
     | enum _ _ _ _ =>
       exfalso
-      simp only [RootLink] at hroot
-      rw [hsrc, (linked_names ds (linked_base hl) m (msg?_mem ds _ m hm)).1] at hroot
-      cases hroot
+      have h1 := hroot.1
+      rw [hsrc, (linked_names ds (linked_base hl) m (msg?_mem ds _ m hm)).1] at h1
+      cases h1
     | object p k en am ps =>
       obtain ⟨m0, hc0, h0, _, hp0, hk0, hprops, _⟩ := hroot
       have := same m0 hc0 h0
@@ -476,19 +476,27 @@ example : (Bridge.toEnv flattenChain flattenChainReg).itemsOk = true :=
 
 /-- **The codec encodes and decodes the empty message of every reflected object** — on the codec
 cluster's model, with the env rendered from the reflected registry: `ProtoToJSON` of the empty
-message is `{}`, `JSONToProto` of `{}` is the empty message. Hypothesis `nameInj`: the def names
-`package.Name` of the registry are pairwise distinct (true of real schema names, which contain no
-dot; decidable). -/
+message is `{}`, `JSONToProto` of `{}` is the empty message. (That the def names `package.Name`
+of the registry are pairwise distinct follows from `linked`: schema names contain no dot,
+`Bridge.nameInj_of_settled`.) -/
 theorem C18_empty_message (ds : DescSet) (hl : linked ds = true) (reg : Reg)
-    (h : schemaSetFromFiles ds = .ok reg) (hinj : Bridge.nameInj reg = true) (e : REntry)
+    (h : schemaSetFromFiles ds = .ok reg) (e : REntry)
     (he : e ∈ reg) (p k : String) (en : Option (String × Int)) (am : List String) (ps : List RProp)
     (hto : e.to = some (.object p k en am ps)) (O : Codec.Oracle) (c : Codec.Cfg)
     (hc : c.env = Bridge.toEnv ds reg) :
     Codec.encodeBytes (Bridge.toEnv ds reg) O (Bridge.rootName e.pkg e.key) (.msg []) = .ok (Json.ascii "{}") ∧
     Codec.decodeBytes c (Bridge.rootName e.pkg e.key) (Json.ascii "{}") = .ok [] :=
-  Bridge.reflected_empty_message ds hl reg h hinj e he p k en am ps hto O c hc
+  Bridge.reflected_empty_message ds hl reg h e he p k en am ps hto O c hc
 
-example : Bridge.nameInj flattenChainReg = true := by decide +kernel
+/-- the same for every reflected oneof schema (oneof wrapper message or exposed oneof): no member
+set ⇒ `{}`, and `{}` decodes to the message with no member set -/
+theorem C18_empty_message_oneof (ds : DescSet) (hl : linked ds = true) (reg : Reg)
+    (h : schemaSetFromFiles ds = .ok reg) (e : REntry) (he : e ∈ reg) (p k : String)
+    (ps : List RProp) (hto : e.to = some (.oneof p k ps)) (O : Codec.Oracle) (c : Codec.Cfg)
+    (hc : c.env = Bridge.toEnv ds reg) :
+    Codec.encodeBytes (Bridge.toEnv ds reg) O (Bridge.rootName e.pkg e.key) (.msg []) = .ok (Json.ascii "{}") ∧
+    Codec.decodeBytes c (Bridge.rootName e.pkg e.key) (Json.ascii "{}") = .ok [] :=
+  Bridge.reflected_empty_message_oneof ds hl reg h e he p k ps hto O c hc
 
 /-! ## Non-vacuity -/
 
